@@ -291,7 +291,7 @@ func runC09(cx *Ctx, r *Report) {
 					matched := false
 					for i := 0; i < 2; i++ {
 						xs := a.Args[i].LooseString()
-						if (xs == coin || xs == "φ{"+coin+"|⟲}" || xs == "⟲") && strings.Contains(a.Args[1-i].LooseString(), "GetBurnCoin(keeper, "+coin+".Denom)") {
+						if (xs == coin || xs == "φ{"+coin+"|⟲}" || xs == "⟲") && cx.isPrevTally(a.Args[1-i], tally.Prefix, coin+".Denom") {
 							matched = true
 						}
 					}
@@ -357,4 +357,20 @@ func inTokenFeeFrame(ev *Event) bool {
 		}
 	}
 	return false
+}
+
+// isPrevTally: t is the tally read back from the store - it contains the result of a
+// function that does nothing but look the tally prefix up, keyed by the coin's denom
+// (GetBurnCoin(k, coin.Denom), getBurnCoin(store, KeyBurnTokenAmt(coin.Denom)), ...).
+func (cx *Ctx) isPrevTally(t *Term, prefix []string, denom string) bool {
+	if len(prefix) != 1 {
+		return false
+	}
+	return findSub(t, func(x *Term) bool {
+		if x.Op != "call" || !strings.Contains(x.LooseString(), denom) {
+			return false
+		}
+		f := cx.funcByTermName(x.Name)
+		return f != nil && cx.readsOnlyPrefix(f, prefix[0])
+	}) != nil
 }
